@@ -106,6 +106,29 @@ Theorem C02_smuggling_rejected : forall verify k v ks t m now p bytes c,
 Proof. exact smuggling_rejected. Qed.
 Print Assumptions C02_smuggling_rejected.
 
+(* Remote key set as a state machine (cache replaced by every successful
+   download): CheckSignature believes a signature only under a key of the list the
+   key set holds after the call - the cache when no download was needed, else the
+   list just served - so a key withdrawn by a newer download is no longer trusted *)
+Theorem C02_remote_check_sound : forall verify allowed skip cached served t parsed alg,
+  check_signature verify allowed (KSRemote cached served skip) t parsed = Ok alg ->
+  exists e k,
+    tok_sigs t = [e] /\ tok_payload t = Some parsed /\ alg = se_alg e
+    /\ string_in alg (effective_algs allowed) = true
+    /\ In k (fst (remote_after verify allowed skip cached served t))
+    /\ trusted_key (KSOpenID None) e k = true
+    /\ verify k e parsed = true.
+Proof. exact remote_check_sound. Qed.
+Print Assumptions C02_remote_check_sound.
+
+(* ... and along every sequence of calls on one instance, with the endpoint
+   changing what it serves between calls (rotation, withdrawal, fetch failures),
+   from any initial cache: each acceptance is justified by the list held then *)
+Theorem C02_remote_rotation_sound : forall verify allowed skip steps cached,
+  run_justified verify allowed cached steps (remote_run verify allowed skip cached steps).
+Proof. exact remote_rotation_sound. Qed.
+Print Assumptions C02_remote_rotation_sound.
+
 (* the property predicate evaluated by the correspondence run holds of the model on every input *)
 Theorem C02_spec_model : forall i, spec i (model i) = true.
 Proof. exact spec_model. Qed.
